@@ -141,3 +141,102 @@ pub fn evaluate_layouts(progs: &[&Prog], tag: &str) -> Result<Vec<LayoutEval>, S
   }
   Ok(out)
 }
+
+/// A program of several modules (the families above are single modules).
+pub struct MultiProg {
+  pub name: String,
+  pub shape: String,
+  pub modules: Vec<(String, String)>,
+  pub entry: String,
+}
+
+pub struct MultiEval {
+  pub rejected: Option<String>,
+  pub reference: Option<refsem::Outcome>,
+  pub compile: Result<(), CompileFail>,
+  pub validation: Option<Result<(), String>>,
+  pub wasm: Option<RunResult>,
+  pub ts: Option<RunResult>,
+}
+
+/// Names that mean different things in different modules / namespaces of one program.
+pub fn cross_module_name_family() -> Vec<MultiProg> {
+  let mut out = vec![];
+  let mut push = |name: &str, shape: &str, modules: Vec<(&str, &str)>| {
+    out.push(MultiProg { name: name.to_string(), shape: shape.to_string(), modules: modules.into_iter().map(|(a, b)| (a.to_string(), b.to_string())).collect(), entry: "Main".to_string() });
+  };
+  let lib = "class T(val n: int) {}\nclass Item(val s: Str, val n: int) {}\nclass R(Lo(int), Hi(Str)) {}\nclass Helper {\n  function mkT(k: int): T = T.init(k)\n  function mkItem(k: int): Item = Item.init(\"i\", k)\n  function mkR(k: int): R = if k > 0 { R.Lo(k) } else { R.Hi(\"hi\") }\n  function showR(r: R): Str = match r { Lo(n) -> \"lo\" :: Str.fromInt(n), Hi(s) -> s }\n}\n";
+  push(
+    "type parameters named like classes of another module",
+    "type parameter T / Item / R of a generic class, function and method; classes T, Item, R in a module that is not imported by name",
+    vec![
+      ("Lib", lib),
+      ("Main", "import { Helper } from Lib\nclass Box<T>(val v: T) {\n  method get(): int = Helper.mkT(41).n + 1\n  method keep(): T = this.v\n  method <R> both(r: R): Str = Helper.showR(Helper.mkR(1)) :: Helper.showR(Helper.mkR(0))\n}\nclass Main {\n  function <Item> tagged(x: Item, k: int): int = Helper.mkItem(k).n\n  function <T> id(t: T): T = t\n  function main(): unit = {\n    Process.println(Str.fromInt(Box.init(\"s\").get()));\n    Process.println(Str.fromInt(Box.init(true).get()));\n    Process.println(Box.init(\"kept\").keep());\n    Process.println(Box.init(3).both(\"r\") :: Box.init(\"s\").both(7));\n    Process.println(Str.fromInt(Main.tagged(\"x\", 7)));\n    Process.println(Str.fromInt(Main.tagged(Box.init(1), 5)));\n    Process.println(Str.fromInt(Main.id(Helper.mkT(9)).n))\n  }\n}\n"),
+    ],
+  );
+  push(
+    "classes of the same name in two modules used side by side",
+    "class Point in two modules with different fields, class Shape in two modules with different variants, reached through helper functions",
+    vec![
+      ("Geometry", "class Point(val x: int, val y: int) {\n  method sum(): int = this.x + this.y\n}\nclass Shape(Dot(Point), Line(Point, Point)) {\n  method size(): int = match this { Dot(p) -> p.sum(), Line(a, b) -> a.sum() + b.sum() }\n}\nclass Geo {\n  function dot(k: int): Shape = Shape.Dot(Point.init(k, k))\n  function line(k: int): Shape = Shape.Line(Point.init(k, 0), Point.init(0, k))\n}\n"),
+      ("Labels", "class Point(val label: Str) {\n  method sum(): Str = this.label :: \"!\"\n}\nclass Shape(Named(Point), Anonymous) {\n  method size(): Str = match this { Named(p) -> p.sum(), Anonymous -> \"anonymous\" }\n}\nclass Lab {\n  function named(s: Str): Shape = Shape.Named(Point.init(s))\n  function anonymous(): Shape = Shape.Anonymous()\n}\n"),
+      ("Main", "import { Geo } from Geometry\nimport { Lab } from Labels\nclass Main {\n  function main(): unit = {\n    Process.println(Str.fromInt(Geo.dot(2).size() + Geo.line(3).size()));\n    Process.println(Lab.named(\"n\").size() :: Lab.anonymous().size())\n  }\n}\n"),
+    ],
+  );
+  push(
+    "module paths that share segments",
+    "modules a.b / a.b.c / a.bc / ab.c each with a class Util of the same name and another body",
+    vec![
+      ("a.b", "class Util { function v(): int = 1 }\nclass FromAB { function v(): int = Util.v() }\n"),
+      ("a.b.c", "class Util { function v(): int = 20 }\nclass FromABC { function v(): int = Util.v() }\n"),
+      ("a.bc", "class Util { function v(): int = 300 }\nclass FromABc { function v(): int = Util.v() }\n"),
+      ("ab.c", "class Util { function v(): int = 4000 }\nclass FromAbC { function v(): int = Util.v() }\n"),
+      ("Main", "import { FromAB } from a.b\nimport { FromABC } from a.b.c\nimport { FromABc } from a.bc\nimport { FromAbC } from ab.c\nclass Main {\n  function main(): unit = Process.println(Str.fromInt(FromAB.v() + FromABC.v() + FromABc.v() + FromAbC.v()))\n}\n"),
+    ],
+  );
+  out
+}
+
+pub fn evaluate_multi(progs: &[MultiProg], tag: &str) -> Result<Vec<MultiEval>, String> {
+  let mut partial: Vec<(MultiEval, Option<exec::Emitted>)> = progs
+    .par_iter()
+    .map(|p| {
+      let reference = crate::run::guarded(|| {
+        let mut heap = Heap::new();
+        let mut handles = HashMap::new();
+        for (m, t) in &p.modules {
+          handles.insert(exec::module_ref(&mut heap, m), t.clone());
+        }
+        let entry = exec::module_ref(&mut heap, &p.entry);
+        let checked = crate::mir_pipeline::check(&mut heap, handles)?;
+        Ok::<_, String>(refsem::run_main_with_config(&heap, &checked, entry, 20_000_000, refsem::Config::default()))
+      });
+      let (rejected, reference) = match reference {
+        Ok(Ok(o)) => (None, Some(o)),
+        Ok(Err(e)) => (Some(e), None),
+        Err(panic) => (Some(format!("front end / reference interpreter panicked: {panic}")), None),
+      };
+      let (compile, emitted) = match exec::compile_program(&p.modules, &p.entry) {
+        Ok(e) => (Ok(()), Some(e)),
+        Err(f) => (Err(f), None),
+      };
+      let validation = emitted.as_ref().map(|e| exec::validate_wasm(&e.wasm));
+      (MultiEval { rejected, reference, compile, validation, wasm: None, ts: None }, emitted)
+    })
+    .collect();
+  let mut jobs = vec![];
+  let mut owner = vec![];
+  for (i, (_, em)) in partial.iter().enumerate() {
+    if let Some(e) = em {
+      jobs.push(Job::Wasm { wasm: e.wasm.clone(), loader_js: e.loader_js.clone(), entry: e.wasm_entry.clone() });
+      jobs.push(Job::Ts { text: e.ts.clone() });
+      owner.push(i);
+    }
+  }
+  let results = exec::run_parallel(tag, &jobs, Duration::from_secs(30), 16)?;
+  for (k, i) in owner.into_iter().enumerate() {
+    partial[i].0.wasm = Some(results[2 * k].clone());
+    partial[i].0.ts = Some(results[2 * k + 1].clone());
+  }
+  Ok(partial.into_iter().map(|(e, _)| e).collect())
+}
